@@ -207,3 +207,137 @@ func VerifH_C13_Kinds() {
 	}
 	vrt.Assert((err == nil) == ok, "c13.kinds.verdict")
 }
+
+// VerifH_C13_Parts: a derived restriction with TWO parts "A..B | C..D" (symbolic digits)
+// over a multi-part base — parts must be ordered, disjoint and each inside one run of
+// the base; as range over int32 or as length over string.
+func VerifH_C13_Parts() {
+	isLength := vrt.Param("length", 0) == 1
+	base := c13Bases[vrt.Choice("base", vrt.Param("bases", len(c13Bases)))]
+	digit := func(tag string) (string, int64) {
+		d := vrt.Byte(tag)
+		vrt.Assume(vrt.And(d >= '0', d <= '9'))
+		return string([]byte{d}), int64(d - '0')
+	}
+	at, a := digit("a")
+	bt, b := digit("b")
+	ct, c := digit("c")
+	dt, d := digit("d")
+	insideRun := func(lo, hi int64) bool {
+		in := false
+		runLo := base.parts[0][0]
+		for i, p := range base.parts {
+			if i > 0 && base.parts[i-1][1]+1 != p[0] {
+				runLo = p[0]
+			}
+			runHi := p[1]
+			for j := i + 1; j < len(base.parts) && base.parts[j-1][1]+1 == base.parts[j][0]; j++ {
+				runHi = base.parts[j][1]
+			}
+			in = vrt.Or(in, vrt.And(lo >= runLo, hi <= runHi))
+		}
+		return in
+	}
+	valid := vrt.And(vrt.And(a <= b, c <= d), vrt.And(b < c, vrt.And(insideRun(a, b), insideRun(c, d))))
+	kw, typ := "range", "int32"
+	if isLength {
+		kw, typ = "length", "string"
+	}
+	text := "module m { namespace 'urn:m'; prefix m; " +
+		"typedef base { type " + typ + " { " + kw + " '" + base.text + "'; } } " +
+		"typedef d { type base { " + kw + " '" + at + ".." + bt + " | " + ct + ".." + dt + "'; } } " +
+		"leaf x { type d; } }"
+	vrt.Reach("c13.parts." + kw)
+	ms, err := compileTexts(map[string]string{"m": text}, featSet{}, nil)
+	if err != nil {
+		vrt.Observe("verdict", text, err.Error())
+	} else {
+		vrt.Observe("verdict", text, "ok")
+	}
+	vrt.Assert(vrt.Iff(err == nil, valid), "c13.parts.compile-verdict")
+	if err != nil {
+		return
+	}
+	leaf := ms.Child("x").(schema.Leaf)
+	var probe string
+	var pv int64
+	if isLength {
+		// a length is a concrete number of characters: solver-chosen among 0..9 (quick: 4 of them)
+		p := vrt.Choice("probe", 10)
+		if vrt.Param("probes", 10) < 10 {
+			vrt.Assume(p == 0 || p == 3 || p == 6 || p == 8)
+		}
+		probe, pv = "xxxxxxxxx"[:p], int64(p)
+	} else {
+		pb := vrt.Byte("probe")
+		vrt.Assume(vrt.And(pb >= '0', pb <= '9'))
+		probe, pv = string([]byte{pb}), int64(pb-'0')
+	}
+	verr := leaf.Type().Validate(c13Ctx{}, []string{"x"}, probe)
+	want := vrt.Or(vrt.And(pv >= a, pv <= b), vrt.And(pv >= c, pv <= d))
+	vrt.Assert(vrt.Iff(verr == nil, want), "c13.parts.derived-type-accepts-exactly-the-narrowed-parts")
+}
+
+// VerifH_C13_PatternDefaults: string chain t1 <- t2 <- leaf; each level optionally adds
+// a pattern and optionally a default.  The nearest default wins and must be accepted
+// by the type as narrowed AT EVERY LEVEL that sees it (pattern-only levels included).
+func VerifH_C13_PatternDefaults() {
+	pats := []string{"", "[a-c]+", "[0-9]+"}
+	defs := []string{"", "abc", "12"}
+	var p, d [3]string
+	for i := 0; i < 3; i++ {
+		p[i] = pats[vrt.Choice("pattern"+strconv.Itoa(i), len(pats))]
+		d[i] = defs[vrt.Choice("default"+strconv.Itoa(i), len(defs))]
+	}
+	pat := func(s string) string {
+		if s == "" {
+			return ""
+		}
+		return " pattern '" + s + "';"
+	}
+	def := func(s string) string {
+		if s == "" {
+			return ""
+		}
+		return " default '" + s + "';"
+	}
+	text := "module m { namespace 'urn:m'; prefix m; " +
+		"typedef t1 { type string {" + pat(p[0]) + " }" + def(d[0]) + " } " +
+		"typedef t2 { type t1 {" + pat(p[1]) + " }" + def(d[1]) + " } " +
+		"leaf x { type t2 {" + pat(p[2]) + " }" + def(d[2]) + " } }"
+	matches := func(v string, upto int) bool {
+		for i := 0; i <= upto; i++ {
+			if p[i] != "" && !c16Match(p[i], v) {
+				return false
+			}
+		}
+		return true
+	}
+	valid := true
+	eff := ""
+	for level := 0; level < 3; level++ {
+		if d[level] != "" {
+			eff = d[level]
+		}
+		if eff != "" && !matches(eff, level) {
+			valid = false
+		}
+	}
+	vrt.Reach("c13.patterndefaults")
+	ms, err := compileTexts(map[string]string{"m": text}, featSet{}, nil)
+	if err != nil {
+		vrt.Observe("verdict", text, err.Error())
+	} else {
+		vrt.Observe("verdict", text, "ok")
+	}
+	vrt.Assert((err == nil) == valid, "c13.patterndefaults.compile-verdict")
+	if err != nil {
+		return
+	}
+	leaf := ms.Child("x").(schema.Leaf)
+	got, has := leaf.Default()
+	vrt.Assert(has == (eff != "") && (!has || got == eff), "c13.patterndefaults.nearest-default")
+	if has {
+		vrt.Assert(leaf.Type().Validate(c13Ctx{}, []string{"x"}, got) == nil, "c13.patterndefaults.default-is-accepted-by-the-final-type")
+	}
+}
